@@ -634,6 +634,14 @@ func (g *zvwWGen) concrete(it zvwWIt) zvwWCItem {
 			w := 40 + r.Intn(216)
 			body, ci.Var = append([]byte{35, byte(w)}, zvwRndBytes(r, 1+r.Intn(20))...), fmt.Sprintf("wait-%d-extra", w)
 		case len(it.Aux) > 1 && it.Aux[0] == 'r': // the underlying agent answers with a response of a size of this class
+			// the relayed content is only demanded for codes that stay forwarded: the OpenSSH requests the standard
+			// server does not implement and the band far away from yubiagent's own codes (a protocol extension may
+			// answer a free code next to 31..35 itself)
+			if !(c == 20 || c == 21 || c == 26 || c == 27 || c >= 64) {
+				g.rot["rcode"]++
+				c = append([]int{20, 21, 26, 27}, 64+(g.rot["rcode"]*37)%192)[g.rot["rcode"]%5]
+				ci.It.Code = c
+			}
 			body = append([]byte{byte(c)}, zvwRndBytes(r, 12)...)
 			cls := it.Aux
 			if g.small && (cls == "r16m" || cls == "rover") {
